@@ -39,6 +39,11 @@ Added probe families (helpers in harness/s5_c13.py):
    member-sized, null-terminated or LEB128 members; `typedef uleb128 L0`; `typedef char T0[]`) and aliases of them; `void` and `uleb128`
    joined the built-in names; these names are re-declared (same and different target) through every text form and — new form
    `add_type` — through `cs.add_type(name, "other name")` / `cs.add_type(name, <type object>)`.
+ * definition parser correspondence (helpers in harness/v1_c13.py): for every baseline text and every mutant text the declaration list
+   of the Lean model of the scanner and the declaration handlers (`CstructModel/DefParser.lean`, driver command `parsedecls`) is compared
+   with the declarations recorded from the REAL parser (a recording subclass of `TokenParser`, nothing in /repo is changed), and the
+   model's token list (`scandef`) with the tokens of `re.Scanner` over the live regex table; the live regex table itself is compared with
+   the table the model was written against.  Hand-written edge texts (v1.EDGE_TEXTS) exercise the error paths and the scanner quirks.
 """
 from __future__ import annotations
 
@@ -46,6 +51,7 @@ import itertools
 
 from .. import common, impl
 from .. import s5_c13 as s5
+from .. import v1_c13 as v1
 from ..common import A, Case, Result, mkrng, parse_sexp, run_driver, sx
 from ..structprops import rand_bytes
 
@@ -520,6 +526,26 @@ def run(env) -> Result:
         elif len(res.violations) < 40:
             res.violations.append(Case("property", what, data))
 
+    probed = set()
+
+    def probe_parser(text):
+        """definition parser correspondence: the model's declaration list / token list vs. the real parser's (see v1_c13)"""
+        if text in probed:
+            return
+        probed.add(text)
+        real = v1.extract(dc, text)
+        res.feat("parser-corr:" + ("accepted" if real[1] is None else "rejected:" + real[1][0]))
+        lines.append(v1.request(text))
+        metas.append(("decls", text, real))
+        lines.append(v1.token_request(dc, text))
+        metas.append(("toks", text, v1.real_tokens(dc, text)))
+
+    if v1.live_table(dc) != v1.TABLE:
+        diff = [(a, b) for a, b in itertools.zip_longest(v1.live_table(dc), v1.TABLE) if a != b]
+        res.disagreements.append(Case("corr", f"the scanner's regex table differs from the one the Lean model mirrors: {diff[:2]!r}", {"diff": repr(diff)}))
+    for text in v1.EDGE_TEXTS:
+        res.count(("parser-edge", text))
+        probe_parser(text)
     probe = rand_bytes(rnd, 64)
     for _ in range(70 if tier == "quick" else 2500):
         items = gen_items(rnd, rnd.randint(3, 9))
@@ -541,6 +567,7 @@ def run(env) -> Result:
         # comment stripper correspondence (model)
         lines.append(sx([A("stripcomments"), base_text]))
         metas.append(("strip", base_text, dc.parser.TokenParser._remove_comments(base_text)))
+        probe_parser(base_text)
         for mi in range(len(KINDS) if tier == "quick" else 2 * len(KINDS)):
             kind = KINDS[mi % len(KINDS)]
             its = items
@@ -555,6 +582,7 @@ def run(env) -> Result:
                 text = render(its, rnd if "layout" in kind else None, f20=f20, rich=rich, hits=hits)
             for ft in set(hits):
                 res.feat("separator:" + ft)
+            probe_parser(text)
             cd = {"family": "layout", "baseline": base_text, "mutant": text, "mutation": kind + ("+enum-newlines" if f20 else ""),
                   "names": sorted(names), "probe": probe.hex()}
             res.count((base_text, text), len(items) >= 3)
@@ -651,6 +679,18 @@ def run(env) -> Result:
         if kind == "strip":
             if s[0] != "ok" or str(s[1]) != want:
                 res.disagreements.append(Case("corr", f"comment stripper: model gives {ans[:200]!r}, implementation gives {want[:200]!r}", {"text": inp}))
+        elif kind == "decls":
+            try:
+                diff = v1.compare(v1.model_events(ans), want)
+            except Exception as e:  # noqa: BLE001
+                diff = f"the model's answer could not be read ({type(e).__name__}: {e}): {ans[:200]!r}"
+            if diff and len(res.disagreements) < 40:
+                res.disagreements.append(Case("corr", "definition parser: " + diff[:600], {"text": inp, "model": ans[:2000], "implementation": repr(want)[:2000]}))
+        elif kind == "toks":
+            got = v1.model_tokens(ans)
+            if got != want and len(res.disagreements) < 40:
+                i = next((j for j in range(min(len(got), len(want))) if got[j] != want[j]), min(len(got), len(want)))
+                res.disagreements.append(Case("corr", f"scanner: token #{i + 1}: model {got[i:i + 2]!r}, implementation {want[i:i + 2]!r}", {"text": inp}))
         else:
             got = "ok" if s[0] == "ok" else str(s[1])
             if got != want:
